@@ -1,0 +1,58 @@
+//! Verification hooks.
+//!
+//! Only compiled with `--cfg essential_base_verif`. Allows an external
+//! harness to observe every operation executed by [`Vm::exec`][crate::Vm::exec],
+//! including those executed by the child VMs spawned by the `Compute` op.
+
+use crate::{Gas, Op, Vm};
+use std::sync::{
+    atomic::{AtomicU64, Ordering},
+    Arc, RwLock,
+};
+
+/// An observer of VM execution.
+///
+/// Every call to `Vm::exec` is assigned a unique `id`. The events of one
+/// call are emitted in program order by the thread executing that call.
+pub trait Observer: Send + Sync {
+    /// A call to `Vm::exec` begins with the VM in the given state.
+    fn enter(&self, id: u64, vm: &Vm);
+    /// The op at `pc` has been charged `op_gas` (`gas_spent` includes it) and
+    /// executed with outcome `ok`. `vm` is the state after the op's effect
+    /// and before the program counter is updated.
+    fn op(&self, id: u64, pc: usize, op: &Op, op_gas: Gas, gas_spent: Gas, ok: bool, vm: &Vm);
+    /// The call to `Vm::exec` returns successfully with the VM in the given state.
+    fn exit(&self, id: u64, gas_spent: Gas, vm: &Vm);
+}
+
+static OBSERVER: RwLock<Option<Arc<dyn Observer>>> = RwLock::new(None);
+static NEXT_ID: AtomicU64 = AtomicU64::new(1);
+
+/// Install (or remove) the global observer.
+pub fn set_observer(observer: Option<Arc<dyn Observer>>) {
+    *OBSERVER.write().expect("observer lock poisoned") = observer;
+}
+
+fn observer() -> Option<Arc<dyn Observer>> {
+    OBSERVER.read().expect("observer lock poisoned").clone()
+}
+
+pub(crate) fn enter(vm: &Vm) -> u64 {
+    let id = NEXT_ID.fetch_add(1, Ordering::Relaxed);
+    if let Some(o) = observer() {
+        o.enter(id, vm);
+    }
+    id
+}
+
+pub(crate) fn op(id: u64, pc: usize, op: &Op, op_gas: Gas, gas_spent: Gas, ok: bool, vm: &Vm) {
+    if let Some(o) = observer() {
+        o.op(id, pc, op, op_gas, gas_spent, ok, vm);
+    }
+}
+
+pub(crate) fn exit(id: u64, gas_spent: Gas, vm: &Vm) {
+    if let Some(o) = observer() {
+        o.exit(id, gas_spent, vm);
+    }
+}
